@@ -394,12 +394,13 @@ def wf_list(wf):
 
 
 class Oracle:
-    def __init__(self, seq):
+    def __init__(self, seq, register=None):
         from pulser.channels.dmm import DMM
         from pulser.pulse import Pulse
 
         self.seq = seq
-        self.qids = list(seq.register.qubit_ids)
+        self.reg = seq.register if register is None else register  # (the atoms the emulator was told to emulate)
+        self.qids = list(self.reg.qubit_ids)
         self.N = len(self.qids)
         self.T = seq.get_duration()
         self.in_xy = any(cs.channel_obj.basis == "XY" for cs in seq._schedule.values())
@@ -414,7 +415,7 @@ class Oracle:
             ch = cs.channel_obj
             basis = ch.basis
             is_dmm = isinstance(ch, DMM)
-            wmap = cs.detuning_map.get_qubit_weight_map(seq.register.qubits) if is_dmm else None
+            wmap = cs.detuning_map.get_qubit_weight_map(self.reg.qubits) if is_dmm else None
             self.used_terms.setdefault(basis, [])
             for sl in cs.slots:
                 if not isinstance(sl.type, Pulse):
@@ -491,7 +492,7 @@ class Oracle:
             H[k] = H.get(k, SCplx(0.0, 0.0)) + coeff
 
     def coords3(self, q):
-        c = [float(x) for x in self.seq.register.qubits[q].as_array(detach=True)]
+        c = [float(x) for x in self.reg.qubits[q].as_array(detach=True)]
         return c + [0.0] * (3 - len(c))
 
     def hamiltonian(self, t, eig, used, extra_phase=None):
@@ -603,8 +604,25 @@ def h_program(shape):
 
             QutipEmulator.from_sequence(seq, config=SimConfig(noise=("leakage", "eff_noise"), eff_noise_rates=[0.1],
                                                                 eff_noise_opers=[qutip.Qobj(np.diag([1.0, 0.0, 0.0]))]))
-        em = QutipEmulator.from_sequence(seq, sampling_rate=rate)
-        if shape.get("reconfig") == "spam_then_reset":
+        big = None
+        if shape.get("superset"):
+            # the emulator is given a register of its own: the sequence's atoms plus one more (Global channels drive every
+            # atom of THAT register, every pair of its atoms interacts)
+            import pulser
+
+            cur = {q: c.as_array(detach=True) for q, c in seq.register.qubits.items()}
+            dim = len(next(iter(cur.values())))
+            big = type(seq.register)({**cur, "extra": (6.0, 9.0) + (0.0,) * (dim - 2)})
+            em = QutipEmulator(pulser.sampler.sample(seq), big, seq.device, sampling_rate=rate)
+        else:
+            em = QutipEmulator.from_sequence(seq, sampling_rate=rate)
+        if shape.get("reconfig") == "spam_then_spam_eta0":
+            # a noisy configuration with badly prepared atoms, then SPAM noise WITHOUT preparation errors (eta=0): every atom is there
+            from pulser_simulation import SimConfig
+
+            em.set_config(SimConfig(noise="SPAM", eta=0.5, runs=1, samples_per_run=1))
+            em.set_config(SimConfig(noise="SPAM", eta=0.0, epsilon=0.01, epsilon_prime=0.05, runs=1, samples_per_run=1))
+        elif shape.get("reconfig") == "spam_then_reset":
             # a noisy configuration (one atom badly prepared, see _FixedRandom) and back: the default configuration's
             # Hamiltonian is the documented one again, whatever was configured in between
             from pulser_simulation import SimConfig
@@ -617,7 +635,7 @@ def h_program(shape):
             em.set_config(SimConfig(noise="dephasing"))
         elif shape.get("reconfig") == "noiseless_view":
             pass
-        orc = Oracle(seq)
+        orc = Oracle(seq, big)
         used = orc.used_bases()
         eig = orc.eigen(used)
         d = len(eig)
@@ -694,7 +712,8 @@ def kernels(tier):
     ks += [("ham", dict(program=n, rate=r)) for n, r in sub]
     # the Hamiltonian after configuration changes / through the noiseless view (collapse operators do not enter H)
     rec = [("perm", "spam_then_reset"), ("xy_plain", "spam_then_reset"), ("two_glob", "noiseless_view"), ("dmm", "dephasing"),
-           ("idle", "leakage_before"), ("digital", "leakage_before")]
+           ("idle", "leakage_before"), ("digital", "leakage_before"), ("perm", "spam_then_spam_eta0"), ("xy_plain", "spam_then_spam_eta0")]
+    ks += [("ham", dict(program=n, superset=True)) for n in (("xy_slm", "ising_all") if tier == "quick" else ("xy_slm", "xy_slm2", "ising_all", "slm_ising", "digital", "dmm"))]
     if tier != "quick":
         rec += [(n, r) for n in ("ising_all", "digital", "slm_ising", "xy_slm", "glob_then_local") for r in ("spam_then_reset", "noiseless_view", "dephasing")]
     return ks + [("ham", dict(program=n, reconfig=r)) for n, r in rec]
